@@ -17,7 +17,7 @@ ORDER = ["Homogeneous", "Affine", "Similarity", "Rotation", "Translation", "Unif
          "AlignmentUniformScale"]
 GEN_REL = os.path.join("MenpoModel", "Generated", "C03Classes.lean")
 GEN_TARGETS = ["MenpoModel.Generated.C03Classes", "MenpoModel.GenProps.C03"]
-N_OBLIGATIONS = 4
+N_OBLIGATIONS = 5
 
 # method table (columns = `Meth.all` of Core/C03Compose.lean, rows = the classes composition is exercised on)
 METHODS = ["compose_before", "compose_after", "compose_before_inplace", "compose_after_inplace",
@@ -134,6 +134,41 @@ def method_table():
     return rows
 
 
+def other_gates():
+    """[(lean class, composes_with, composes_inplace_with)] for the classes outside the family, read from live
+    instances: "some true" = the attribute is the class Transform itself (every object is an instance), "none" = the
+    object has no such attribute, "some false" = anything else (a narrower class: the model has no word for it)"""
+    import numpy as np
+    import menpo.transform as mt
+    from menpo.transform.base import Transform
+    from menpo.shape import PointCloud
+    src = PointCloud(np.array([[0.0, 0.0], [1.0, 0.0], [0.0, 1.0], [1.0, 1.5]]))
+    tgt = PointCloud(np.array([[0.0, 0.1], [1.0, 0.0], [0.2, 1.0], [1.0, 1.0]]))
+    inst = {"TransformChain": lambda: mt.TransformChain([]), "WithDims": lambda: mt.WithDims([0, 1]),
+            "ThinPlateSplines": lambda: mt.ThinPlateSplines(src, tgt),
+            "PiecewiseAffine": lambda: mt.PiecewiseAffine(src, tgt)}
+    rows = []
+    for n in OTHER_CLASSES:
+        try:
+            o = inst[n]()
+        except Exception:
+            rows.append((".%s" % n, "some false", "some false"))
+            continue
+        vals = []
+        for attr in ("composes_with", "composes_inplace_with"):
+            try:
+                v = getattr(o, attr)
+            except AttributeError:
+                vals.append("none")
+                continue
+            except Exception:
+                vals.append("some false")
+                continue
+            vals.append("some true" if v is Transform else "some false")
+        rows.append((".%s" % n, vals[0], vals[1]))
+    return rows
+
+
 def _lean_list(xs):
     return "[" + ", ".join(xs) + "]"
 
@@ -162,7 +197,11 @@ def render(rows2, rows3):
             "def classTable3 : ClassTable := %s\n\n"
             "/-- per class, the supplier of each method of `Meth.all` (the class of the MRO that defines it) -/\n"
             "def methodTable : MethodTable := %s\n\n"
-            "end MenpoModel.Generated.C03\n" % (len(rows2), tbl(rows2), tbl(rows3), mtbl(method_table())))
+            "/-- per class outside the family: (composes_with, composes_inplace_with) of a live instance -\n"
+            "`some true`: the class Transform itself, `none`: no such attribute -/\n"
+            "def otherGates : List (Kls × Option Bool × Option Bool) := [%s]\n\n"
+            "end MenpoModel.Generated.C03\n" % (len(rows2), tbl(rows2), tbl(rows3), mtbl(method_table()),
+                                                ", ".join("(%s, %s, %s)" % r for r in other_gates())))
 
 
 def wire(rows):
